@@ -653,7 +653,9 @@ RULES = {
     "caller-made or re-used symbols, optionally with a symbolic sampling time, optionally interrupted at a seeded line "
     "event (cut in the initialisation, origin or link phase); per-element init_vars (new or same symbols) and step in "
     "scheduler-chosen order; construction calls after steps (new source branch, new ramp, replaced destination, origin, "
-    "link); compiles at compactness 0-2 with/without more_out and parameters after every kind of history. A readiness "
+    "link); caller-defined destinations with a state of their own (initialised by Network.step, stepped by the caller only); "
+    "compiles at compactness 0-2 with/without more_out and parameters (a symbolic T declared as a parameter or merely handed over "
+    "by keyword) after every kind of history. A readiness "
     "state machine per element decides whether to_function must raise RuntimeError; a returned function must have no free "
     "symbols and, right after a complete step, equal the function of a twin that experienced only that step. "
     "Non-trivial = at least one compile whose outcome was decided by the model; distinct = distinct sequence of "
